@@ -946,14 +946,17 @@ func c04ForDots(r *an.Run) {
 	}
 	// partition loop covers all fields
 	var il *an.IndexLoop
-	for _, l := range an.Loops(f) {
-		if x := an.AsIndexLoop(l); x != nil {
-			if c, ok := x.Bound.(*ssa.Call); ok && c.Call.IsInvoke() && c.Call.Method.Name() == "NumField" {
-				il = x
+	for _, g := range helperGroup(f, 2) { // the partition may live in a private helper
+		for _, l := range an.Loops(g) {
+			if x := an.AsIndexLoop(l); x != nil {
+				if c, ok := x.Bound.(*ssa.Call); ok && c.Call.IsInvoke() && c.Call.Method.Name() == "NumField" {
+					il = x
+				}
 			}
 		}
 	}
 	if r.Check(il != nil, short(f)+"|field-loop", f.Pos(), "one loop over all fields of the matched statement") {
+		f := il.Loop.Header.Parent()
 		var fieldCall *ssa.Call
 		for _, c := range callsInLoop(il.Loop, rvField) {
 			call := c.(*ssa.Call)
